@@ -35,6 +35,7 @@ def opsPackets (op : String) (args : List SExp) : Option String :=
         | "file" => some (initFile chunks total)
         | "socket" => some (initSocket chunks)
         | "pipe" => some (initSocket chunks)       -- a file object that cannot seek: total length unknown, read until empty
+        | "gzip" => some (initFile chunks total)   -- a `gzip.open()` file object: a seekable binary file of the *decompressed* bytes
         | _ => none
       let out := frame ⟨skip, trim⟩ st
       pure ("pkts" ++ String.join (out.map (fun p => " " ++ showHex p)))
